@@ -86,6 +86,7 @@ def resume_job(job):
             step = max(1, len(keep) // job["max_ckpt"])
             files = keep[::step][: job["max_ckpt"]] + [f for f in files if f.endswith("_final.state")]
         plan = [(f, job["n_total"], "") for f in files]
+        conf_np2 = dict(conf, n_particles=2 * c["n_particles"])
         if job.get("vary_n_total", True) and files:
             mids = [f for f in files if not f.endswith("_final.state")]
             if mids:
@@ -97,7 +98,7 @@ def resume_job(job):
             s2, _ = drivers.build_sampler(conf, rec, out_dir=out_dir)
             rec.attach(s2)
             np.random.seed(12345)  # the ambient stream of the resuming process is unrelated
-            _, _, tr2 = drivers.record_run(conf, n_total=nt, seed=12345, label=job["label"] + "|resume:" + os.path.basename(f) + tag,
+            _, _, tr2 = drivers.record_run(conf_np2 if tag == "|n_particles*2" else conf, n_total=nt, seed=12345, label=job["label"] + "|resume:" + os.path.basename(f) + tag,
                                            resume=f, out_dir=out_dir, rec=rec, sampler=s2, save_every=None)
             tr2["meta"]["checkpoint"] = os.path.basename(f)
             traces.append(tr2)
